@@ -436,10 +436,6 @@ for (k1, n1, k2, n2) in ((0, 0, 1, 0), (0, 0, 1, 1), (1, 1, 0, 0), (2, 0, 3, 0),
     UC("c15-pattern-indices-h2-" + tag, "pattern", "pattern_indices_two_atoms::<%s>()" % ("2" + shape[1:]), {"C15": "quick"}, "bounded", PAT_FNS[1:2] + PAT_FNS[3:],
        "Pattern::indices of %s on a 2-character haystack: same decision and score as Pattern::score, indices in atom order, negated atoms append nothing" % what,
        unwind=8, bound=bound.replace("ASCII haystack 3", "ASCII haystack 2"), cost=5, timeout=1500, stubs=OPT_STUB if fz else [])
-for (k1, n1) in ((1, 0), (2, 0), (1, 1)):
-    UC("c15-match-list-%s%s" % ("not-" if n1 else "", KN[k1]), "pattern", "match_list_three::<%d,%s>()" % (k1, "true" if n1 else "false"), {"C15": "quick"}, "bounded", ["pattern::Pattern::match_list", "pattern::Pattern::score", "Utf32Str::new"],
-       "Pattern::match_list over three 2-byte inputs with a one-atom pattern (%s%s): exactly the matching inputs, each once, descending score, equal scores in input order" % ("negated " if n1 else "", KN[k1]),
-       unwind=9, bound="three ASCII inputs of 2 bytes, one-character needle over {a,b,c,space}; unicode-segmentation feature OFF", cost=7, timeout=1500, features=NOSEG)
 UC("c15-pattern-empty", "pattern", "pattern_empty()", {"C15": "quick"}, "bounded", PAT_FNS[2:], "an empty pattern matches everything with score 0 and appends nothing", unwind=8, bound="ASCII haystack 3")
 UC("c15-multipattern-two-columns", "multipattern", "multipattern_two_columns()", {"C15": "thorough"}, "bounded", ["nucleo::pattern::MultiPattern::score", "nucleo::pattern::MultiPattern::reparse", "pattern::Pattern::parse"],
    "MultiPattern [\"a\", \"!b\"] over two columns == conjunction of the column patterns; matches iff column 0 contains a/A and column 1 contains no b/B", unwind=12,
@@ -550,9 +546,9 @@ PROPERTIES = {
              "contract-based deductive verification (Kani contract harnesses, bounded byte strings, callee replaced by a recording stub)",
              "partial: marker grammar and splitting on bounded ASCII strings." + BOUNDED_NOTE,
              note="Trusted: Kani/CBMC; Atom::new_inner is NOT verified (replaced by a stub that records its arguments).", assumptions=["Atom::new_inner stubbed in the parse obligations"]),
-    "C15": P("other", "bounded contract checking of Atom/Pattern score and indices composition: two-atom patterns of every kind pair listed, both polarities, symbolic case/normalisation flags, symbolic ASCII haystack of 3; reference = the entry point called on a fresh matcher per atom; MultiPattern::score over two columns (thorough); Pattern::match_list over three short inputs.",
+    "C15": P("other", "bounded contract checking of Atom/Pattern score and indices composition: two-atom patterns of every kind pair listed, both polarities, symbolic case/normalisation flags, symbolic ASCII haystack of 3; reference = the entry point called on a fresh matcher per atom; MultiPattern::score over two columns (thorough tier). match_list is NOT covered (a three-input obligation exceeded 600 s: Utf32Str::new + sort_by_key).",
              "contract-based deductive verification (Kani contract harnesses, bounded)",
-             "Pattern composition and match_list on bounded inputs." + BOUNDED_NOTE),
+             "Pattern composition on bounded inputs; match_list not covered." + BOUNDED_NOTE),
     "C16": P("proof", "every deciding obligation quantifies over the whole char domain (all 1,112,064 scalar values) x all configurations and is loop-free or fully unwound with unwinding assertions on: to_lower_case/is_upper_case == Unicode simple case folding oracle, normalize contract (documented blocks, NFKD base letter, idempotent, ASCII fixed), agreement of every normalising entry point incl. the prefilter's byte search. Complete proofs by Kani/CBMC on the real functions.",
              "contract-based deductive verification (Kani, complete over the full char domain)",
              "Complete proofs over the whole char domain.",
